@@ -348,10 +348,15 @@ def dataclass_field_invariants(ctx):
     sample = {"bool_": "true", "string": "abc", "float64": "1.5", "error_code": "3", "timedelta_i32": "500", "timedelta_i64": "500",
               "datetime_i64": "-1"}
     rows = []
+    falsy = {"string": "", "bool_": "false", "float64": "0.0", "error_code": "0", "timedelta_i32": "0", "timedelta_i64": "0"}
+    cases = []
     for m in members:
-        d = sample.get(m.name, "7")
         if m.name in ("bytes_", "uuid", "records"):
             continue
+        cases.append((m, sample.get(m.name, "7")))
+        if m.name != "datetime_i64":
+            cases.append((m, falsy.get(m.name, "0")))  # a default that is falsy as a Python value or spelled like one is still a default
+    for m, d in cases:
         optional = m.name == "datetime_i64"
         try:
             want_default = I.call(fd, [m, d, optional, None], {}, Run(), None)
@@ -1042,3 +1047,55 @@ def custom_type_rows(ctx):
         ok = len(st) == 1 and isinstance(st[0], ast.ClassDef) and st[0].name == name and [ast.unparse(b) for b in st[0].bases] == [short]
         rows.append({"ok": ok, "case": name, "message": f"the generator defines {name} as `{code.strip()}`; the shipped schema has `class {name}({short}): ...`"})
     return rows
+
+
+def primitive_array_lines(ctx):
+    """G18: generate_primitive_array_field over definitions x versions.  Per the definition: nullable in v iff nullableVersions
+    contains v; tagged in v iff taggedVersions contains v.  Returns (problems by aspect, number of cases)."""
+    I = ctx.interp
+    gs = _mod(ctx, "codegen.generate_schema")
+    pm = _mod(ctx, "codegen.parser")
+    VR = _mod(ctx, "codegen.versions").env.vars.get("VersionRange")
+    fn = gs.env.vars.get("generate_primitive_array_field")
+    PAF, PAT = pm.env.vars.get("PrimitiveArrayField"), pm.env.vars.get("PrimitiveArrayType")
+    if not isinstance(fn, FuncV) or not isinstance(PAF, ClassV) or not isinstance(PAT, ClassV):
+        raise AnalysisError("anchor vanished: generate_primitive_array_field / PrimitiveArrayField / PrimitiveArrayType")
+    P, members = primitive_members(ctx)
+    by_value = {m.value: m for m in members}
+    INF = float("inf")
+    mk = lambda r: None if r is None else I.call(VR, [r[0], r[1]], {}, Run(), None)
+    problems = {"nullability": [], "tag": [], "name": [], "other": []}
+    n = 0
+    for kt in ("int32", "string"):
+        for tv in (None, (1, INF)):
+            for nv in (None, (2, INF)):
+                fld = InstV(PAF, {"name": "ReplicaIds", "versions": mk((0, INF)), "nullableVersions": mk(nv), "ignorable": False, "mapKey": False,
+                                  "about": None, "entityType": None, "tag": None if tv is None else 2, "taggedVersions": mk(tv),
+                                  "type": I.call(PAT, [by_value[kt]], {}, Run(), None)})
+                for version in (0, 1, 2, 3):
+                    n += 1
+                    case = f"[]{kt} taggedVersions={'1+' if tv else None} nullableVersions={'2+' if nv else None} version={version}"
+                    try:
+                        line = I.call(fn, [], {"field": fld, "inner_type": by_value[kt], "version": version, "custom_type": None}, Run(), None)
+                    except Raised as r:
+                        problems["other"].append(f"{case}: raises {short_exc(r.cls)}")
+                        continue
+                    except Limit as e:
+                        raise AnalysisError(f"generate_primitive_array_field not understood: {e}")
+                    if not isinstance(line, str):
+                        raise AnalysisError(f"generate_primitive_array_field({case}) is not evaluated to a constant string: {line!r}")
+                    parsed = _parse_field_line(line)
+                    if parsed is None:
+                        problems["other"].append(f"{case}: emits {line!r}")
+                        continue
+                    name, ann, kws = parsed
+                    tagged = tv is not None and tv[0] <= version
+                    nullable = nv is not None and nv[0] <= version
+                    if name != "replica_ids":
+                        problems["name"].append(f"{case}: named {name!r}")
+                    if ann.replace(" ", "").endswith("|None") != nullable:
+                        problems["nullability"].append(f"{case}: annotated {ann!r}")
+                    md = ast.literal_eval(kws["metadata"]) if "metadata" in kws else {}
+                    if md.get("tag") != (2 if tagged else None) or md.get("kafka_type") != kt:
+                        problems["tag"].append(f"{case}: metadata {md}")
+    return problems, n
